@@ -11,6 +11,12 @@ VERIF = os.path.dirname(os.path.dirname(os.path.abspath(__file__)))
 REPO = os.environ.get("VERIF_REPO", "/repo")
 
 
+def OUT(sub):
+    """evidence/ and replays/ live in /verif; the seeded-change runner redirects them (VERIF_OUT) so that runs
+    against a patched scratch copy of the repository never overwrite the evidence of the real tree"""
+    return os.path.join(os.environ.get("VERIF_OUT") or VERIF, sub)
+
+
 def load_known():
     p = os.path.join(VERIF, "known_findings.json")
     if not os.path.exists(p):
@@ -86,8 +92,8 @@ class Check:
             record["tags"] = sorted(tags)
             blob = json.dumps(record, sort_keys=True, default=str)
             h = hashlib.sha1(blob.encode()).hexdigest()[:10]
-            os.makedirs(os.path.join(VERIF, "replays"), exist_ok=True)
-            path = os.path.join(VERIF, "replays", "%s-%s.json" % (self.pid, h))
+            os.makedirs(OUT("replays"), exist_ok=True)
+            path = os.path.join(OUT("replays"), "%s-%s.json" % (self.pid, h))
             with open(path, "w") as fh:
                 fh.write(json.dumps(record, indent=1, sort_keys=True, default=str))
             print("VIOLATION property=%s replay=%s" % (self.pid, path), flush=True)
@@ -127,8 +133,8 @@ class Check:
             "wall_s": round(time.time() - self.t0, 2),
             "violations": self.violations,
         }
-        os.makedirs(os.path.join(VERIF, "evidence"), exist_ok=True)
-        with open(os.path.join(VERIF, "evidence", "%s.json" % self.pid), "w") as fh:
+        os.makedirs(OUT("evidence"), exist_ok=True)
+        with open(os.path.join(OUT("evidence"), "%s.json" % self.pid), "w") as fh:
             json.dump(ev, fh, indent=1, default=str)
         if self.machinery_errors:
             return 2
